@@ -31,6 +31,14 @@ def explore(names, depth, total, root):
             if sig.startswith('C16'):
                 total.violation(sig, f"after {root} + {rec['h']}: {msg}",
                                 {'root': root, 'history': rec['h']})
+            elif sig.startswith('C15:valid-declaration-rejected') and \
+                    any(n.startswith('!') for n in rec['h'][:-1]):
+                # a valid declaration refused after a rejected one: the
+                # rejected attempt was not without trace
+                total.violation('C16:valid-declaration-rejected-after-'
+                                'rejected-step',
+                                f"after {root} + {rec['h'][:-1]}: {msg}",
+                                {'root': root, 'history': rec['h']})
         if not rec['ok'] and rec['parent_fp'] is not None and \
                 rec['fp'] != rec['parent_fp']:
             name = rec['h'][-1]
@@ -79,6 +87,10 @@ def replay(case):
                     hist = hist + [name]
                     res += [(s, m) for s, m in rec['viol']
                             if s.startswith('C16')]
+                    res += [('C16:valid-declaration-rejected-after-rejected'
+                             '-step', m) for s, m in rec['viol']
+                            if s.startswith('C15:valid-declaration-rejected')
+                            and any(n.startswith('!') for n in hist[:-1])]
                     if not rec['ok'] and rec['parent_fp'] is not None \
                             and rec['fp'] != rec['parent_fp']:
                         reason = decl.EVENTS[name][2].split(':')[-1]
